@@ -135,8 +135,8 @@ def show(t):
         return "(%s if %s else %s)" % (show(t[2]), show(t[1]), show(t[3]))
     if k in ("+", "*", "&", "|", "^"):
         return "(" + (" %s " % k).join(show(x) for x in t[1:]) + ")"
-    if k in ("mod", "div", "<<", ">>"):
-        op = {"mod": "%", "div": "//"}.get(k, k)
+    if k in ("mod", "div", "<<", ">>", "truediv"):
+        op = {"mod": "%", "div": "//", "truediv": "/"}.get(k, k)
         return "(%s %s %s)" % (show(t[1]), op, show(t[2]))
     if k == "c":
         return str(t[1])
@@ -298,6 +298,9 @@ class Lw(X.PyLower):
             raise AnalysisError("power with a base other than 2: %s" % canon(e)[:60])
         if isinstance(e, ast.BinOp) and isinstance(e.op, ast.FloorDiv):
             return mydiv(self.lower(e.left), self.lower(e.right))
+        if isinstance(e, ast.BinOp) and isinstance(e.op, ast.Div):
+            # true (floating point) division: a known operator that is NOT the inverse of integer multiplication
+            return ("truediv", self.lower(e.left), self.lower(e.right))
         if isinstance(e, ast.Compare):
             if len(e.ops) != 1:
                 raise AnalysisError("chained comparison: %s" % canon(e)[:60])
@@ -1108,8 +1111,16 @@ def r2_integers(L, repo):
             L.ob(R, F, fn, "encoder returns <raw>.to_bytes(...)", "to_bytes call", tb, False, fd.lineno)
             continue
         raw = o.val[2]
-        L.require(R, F, fn, "raw integer = (value - offset) // mult, value taken through get_val", show(mydiv(X.sub(GV, OFFS), MULT)), show(raw), line=fd.lineno)
         comp = subst(raw, GV, dec)
+        if comp != FB:
+            # a differing result is a violation only if the expression is made of known arithmetic
+            # (+, *, //, true division, int()) over the value, offset and mult; anything else is unclassifiable
+            for t in subterms(raw):
+                known = t[0] in ("c", "v", "k", "+", "*", "div", "truediv", "idx") or t == GV or \
+                    (t[0] == "call" and t[1] in ("int", "round") and len(t) == 3)
+                if not known:
+                    raise AnalysisError("Uint._to_bytes: raw integer expression unclassifiable: %s" % show(raw)[:100])
+        L.ob(R, F, fn, "the value is taken through get_val", show(GV), show(raw), any(t == GV for t in subterms(raw)), fd.lineno)
         L.ob(R, "%s" % F, "Uint._to_bytes o Uint._from_bytes",
              "re-encoding a decoded value reproduces the raw integer: ((x*mult + offset) - offset) // mult rewrites to x",
              show(FB), show(comp), comp == FB, fd.lineno)
@@ -1311,6 +1322,19 @@ def r3_length(L, repo):
                 if ordered and new[0] == "+" and len(new) == 3 and v in new[1:] and lp.head == V("self.STRUCT") and lp.pre.get(v) == K(b""):
                     shape = "loop"
                     elt = subst([x for x in new[1:] if x != v][0], V("$it"), V("$e"))
+        if shape is None and v[0] == "mcall" and v[1] == "join" and len(v) == 4 and v[3][0] == "obj" and v[3][2] == ("list",):
+            # chunks = []; for f in self.STRUCT: chunks.append(<f's octets>); return b''.join(chunks)
+            lst = v[3]
+            loops = [e[1] for e in o.st.events if e[0] == "loop"]
+            outside = [e[1] for e in o.st.events if e[0] in ("call", "eval") and e[1][0] == "mcall" and e[1][2] == lst and e[1] != v]
+            if len(loops) == 1 and not outside and loops[0].head == V("self.STRUCT") and v[2] == K(b""):
+                lp = loops[0]
+                normal = [b for b in lp.outs if not any(t[0] == "exc" for t, _ in b.st.conds)]
+                if len(normal) == 1 and normal[0].kind in ("fall", "continue"):
+                    muts = [e[1] for e in normal[0].st.events if e[0] == "call" and e[1][0] == "mcall" and e[1][2] == lst]
+                    if len(muts) == 1 and muts[0][1] == "append" and len(muts[0]) == 4:
+                        shape = "append-loop"
+                        elt = subst(muts[0][3], V("$it"), V("$e"))
         if shape is None:
             raise AnalysisError("Envelope._to_bytes: concatenation shape unclassifiable: %s" % show(v)[:80])
         direct = mcall("to_bytes", V("$e"), V("$vals"))
@@ -1374,12 +1398,36 @@ def r3_length(L, repo):
         L.require(R, F, fn, "the item is decoded by the envelope whose tail check __init__ switched off, from data[offset:]",
                   ("self._item", show(sl(V("$data"), off))), (show(c[2]), show(c[4]) if len(c) > 4 else None), line=lp.node.lineno)
         seqv = o.val
-        apps = [e[1] for e in bf[0].st.events if e[0] == "call" and e[1][0] == "mcall" and e[1][1] == "append"]
-        L.ob(R, F, fn, "every item is decoded into a fresh dict appended to the returned list (which starts empty)",
-             "<new list>.append({}) then decode into <new list>[-1]; return <new list>",
-             ([show(a) for a in apps], show(c[3]) if len(c) > 3 else None, show(seqv)),
-             seqv[0] == "obj" and seqv[2] == ("list",) and len(apps) == 1 and apps[0][2] == seqv and apps[0][3:] == (("dict",),)
-             and len(c) > 3 and c[3] == idx(seqv, C(-1)), lp.node.lineno)
+        evs = list(bf[0].st.events)
+        apps = [(k, e[1]) for k, e in enumerate(evs) if e[0] == "call" and e[1][0] == "mcall" and e[1][1] == "append" and e[1][2] == seqv]
+        decs = [k for k, e in enumerate(evs) if e[0] == "eval" and e[1] == c]
+        tgt = c[3] if len(c) > 3 else None
+        key = "every item is decoded into a fresh dict that is appended, in the same iteration, to the returned list (which starts empty)"
+        found = ([show(a) for _, a in apps], "decode into %s" % (show(tgt) if tgt else None), "return %s" % show(seqv))
+        if not (seqv[0] == "obj" and seqv[2] == ("list",)):
+            if seqv[0] in ("list", "tuple", "k"):
+                L.ob(R, F, fn, key, "return <the list the items were appended to>", found, False, lp.node.lineno)
+                continue
+            raise AnalysisError("Sequence.from_bytes: returned value unclassifiable: %s" % show(seqv)[:60])
+        if len(apps) != 1 or len(apps[0][1]) != 4 or not decs or tgt is None:
+            if not apps and tgt is not None and tgt[0] in ("dict", "obj"):
+                L.ob(R, F, fn, key, "one append of the decoded dict per iteration", found, False, lp.node.lineno)
+                continue
+            raise AnalysisError("Sequence.from_bytes: item bookkeeping unclassifiable: %s" % (found,))
+        ak, app = apps[0]
+        arg = app[3]
+        fresh_local = arg[0] == "obj" and arg[2] == ("dict",) and V(arg[1]) in lp.pre      # a dict created by this iteration
+        if arg == ("dict",) and tgt == idx(seqv, C(-1)):
+            ok = ak < decs[0]          # the last element is the one just appended only after the append
+        elif fresh_local and tgt == arg:
+            ok = True                  # the very object appended is the one decoded into (either order)
+        elif arg == ("dict",) or fresh_local or (arg[0] == "obj" and arg[2] == ("dict",)):
+            ok = False                 # a dict is appended but another object (or a shared one) is decoded into
+        else:
+            raise AnalysisError("Sequence.from_bytes: item bookkeeping unclassifiable: %s" % (found,))
+        if arg[0] == "obj" and not fresh_local:
+            ok = False                 # one dict shared by all items
+        L.ob(R, F, fn, key, "append(<fresh dict>) and decode into that same object; return the list", found, ok, lp.node.lineno)
     L.floor(R, "Sequence item loops", nseq, 1)
     ci, fd = need(repo, "Sequence", "to_bytes")
     L.fn(F, "Sequence.to_bytes")
